@@ -176,8 +176,11 @@ def __distribute_ors_switching(f: Formula, fresh: int) -> FormulaAndFresh:
             else:
                 (new_formula, new_fresh) = __switching_combination(clauses, new_fresh)
                 return __distribute_ors_switching(new_formula, new_fresh)
-        else:
+        elif len(clauses) == 1:
             return (clauses[0], new_fresh)
+        else:
+            # A disjunction of nothing is false; there is nothing to distribute
+            return (f, fresh)
     elif isinstance(f, Not):
         assert isinstance(f.c, int)
         return (f, fresh)
